@@ -30,6 +30,11 @@ def targeted(extras):
         out.append(g(body)); out.append(g(body, "", '"b"', "", '_{ " " }'))
     for body in ['SOI ~ "a" ~ EOI', '"a"* ~ EOI', 'ANY ~ ANY?', "'a'..'é' ~ ^\"B\"", '"é" | "e"', '!"a" ~ ANY | "a" ~ "b"', '&b ~ ANY', '(!("a" | "b") ~ ANY)* ~ "a"', '"a"{2,3} ~ b{,2}']:
         out.append(g(body)); out.append(g(body, "@", '"b"', "$", '_{ " " }')); out.append(g(body, "$", '"b" ~ "a"?', "", '{ " " }'))
+    # a grammar rule named like a primitive built-in together with the composite built-ins that could be defined through it
+    for prim, body in [("ASCII_DIGIT", "'0'..'7'"), ("ASCII_ALPHA_LOWER", "'a'..'f'"), ("ASCII_ALPHA_UPPER", '"A" | "B"'), ("ASCII_ALPHA", "'a'..'c'"), ("ASCII_NONZERO_DIGIT", '"1"')]:
+        for pm in ["", "_", "@"]:
+            out.append(f'a = {{ ASCII_ALPHANUMERIC+ }}\nb = {{ "#" ~ ASCII_HEX_DIGIT+ }}\n{prim} = {pm}{{ {body} }}')
+            out.append(f'a = {{ ASCII_ALPHA ~ ASCII_DIGIT? }}\nb = {{ {prim} ~ ASCII_ALPHANUMERIC }}\n{prim} = {pm}{{ {body} }}')
     for mod in ["", "_", "@", "$", "!"]:
         for bmod in ["", "@", "$"]:
             out.append(f'a = {{ "a" ~ b ~ "a" }}\nb = {{ "b" }}\nblank = {bmod}{{ " " | "\\t" }}\nWHITESPACE = {mod}{{ blank+ }}')
